@@ -1080,7 +1080,15 @@ const c15KeyReplayPrecheck = "C15:replay@spontaneous-expiry-precheck"
 // replayHitsPrecheck reports whether notifying s again at the current height
 // runs into the just-in-time invoice pre-check although s is on record.
 func (m *c15Model) replayHitsPrecheck(s *c15Shard) bool {
-	if _, recorded := m.worlds[0].where[s.key]; !recorded {
+	// After a concurrent batch the stores may have recorded different
+	// HTLCs: on record in any of them counts.
+	recorded := false
+	for _, w := range m.worlds {
+		if _, ok := w.where[s.key]; ok {
+			recorded = true
+		}
+	}
+	if !recorded {
 		return false
 	}
 	spont := (m.cfg.acceptAMP && s.kind == "amp") ||
